@@ -88,11 +88,18 @@ func (r *Result) CalculateWinnerRewards(potIdx int, l *LevelInfo) {
 	based := l.Total / int64(len(winners))
 	remainder := l.Total % int64(len(winners))
 
+	// A pot can consist of several levels: keep handing out the odd chips
+	// where the previous level of this pot stopped, so that the shares of
+	// the winners never differ by more than one chip over the whole pot
+	count := int64(len(winners))
+	offset := r.Pots[potIdx].oddChips % count
+	r.Pots[potIdx].oddChips += remainder
+
 	for i, wIdx := range winners {
 
 		reward := based
 
-		if int64(i) < remainder {
+		if (int64(i)-offset+count)%count < remainder {
 			reward += 1
 		}
 
